@@ -36,6 +36,10 @@ ASSUMPTIONS = [
     "numpy.repeat, rlencode on 2-d input against numpy.repeat along axis 1",
     "copy(): values, format and order of indices are judged; memory aliasing is only recorded "
     "as an observation class",
+    "purity: every argument of every utility must be bitwise unchanged by the call (ndarray bytes; "
+    "sparse data/indices/indptr/format/shape), except the first argument of the documented in-place "
+    "functions zero_rows, zero_columns, merge_matrices, stack_mat; for the *_from_sparse_blocks "
+    "functions the block objects (not the list holding them) must be unchanged",
 ]
 BOUNDS = {
     "quick": "shapes r x c with r*c <= 6 (r, c <= 3): 170 patterns; index sequences with "
@@ -146,13 +150,22 @@ def _eqm(M, exp):
     return sps.issparse(M) and G.is_wellformed(M) is None and _eq(M.toarray(), exp)
 
 
-def _call(rec, tag, fn, *args, **detail):
-    """Call the code under test; an exception is a violation."""
+def _call(rec, tag, fn, *args, pure=None, **detail):
+    """Call the code under test; an exception is a violation. Purity oracle: the bitwise
+    content of every argument whose position is in ``pure`` (default: all) must be unchanged
+    by the call (in-place functions pass the positions of their read-only arguments)."""
+    pos = range(len(args)) if pure is None else pure
+    before = [G.digest(args[i]) for i in pos]
     try:
-        return True, fn(*args)
+        res = fn(*args)
     except Exception as e:  # noqa: BLE001
         rec.bad(tag, f"{tag} raised on admissible input", error=repr(e), **detail)
         return False, None
+    for i, b in zip(pos, before):
+        if G.digest(args[i]) != b:
+            rec.bad(tag, f"{tag} modified its argument #{i} (storage digest changed)", **detail)
+            return False, None
+    return True, res
 
 
 # ------------------------------------------------------------------- slicing and zeroing
@@ -269,7 +282,7 @@ def run_zero(case, out):
             else:
                 exp[:, sel] = 0
             det = dict(matrix=_desc(r, c, mask, z, fmt, order), index=a, index_kind=kind)
-            ok, res = _call(rec, name, fn, A, arg, **det)
+            ok, res = _call(rec, name, fn, A, arg, pure=(1,), **det)
             cls = f"{name}/{kind}/{'empty' if not sel else 'unsorted' if sel != sorted(sel) else 'sorted'}"
             if ok:
                 bad = None
@@ -328,7 +341,7 @@ def run_merge(case, out):
                     det = dict(A=_desc(r, c, mask, 0, fmt, order), B=DB.tolist(), lines=lines, format=fmt,
                                lines_sorted=srt)
                     ok, res = _call(rec, "merge_matrices" + ("" if srt else "-unsorted"), mo.merge_matrices, A, B,
-                                    np.array(lines, dtype=int), fmt, **det)
+                                    np.array(lines, dtype=int), fmt, pure=(1, 2, 3), **det)
                     cls = f"merge/{fmt}/{'sorted' if srt else 'unsorted'}/{'k=n' if k == n else 'k<n'}"
                     if ok:
                         bad = None
@@ -389,7 +402,7 @@ def run_stack(case, out):
                             A_after = A
                         else:
                             exp = np.vstack((D, DB)) if fmt == "csr" else np.hstack((D, DB))
-                            ok, res = _call(rec, "stack_mat", mo.stack_mat, A, B, **det)
+                            ok, res = _call(rec, "stack_mat", mo.stack_mat, A, B, pure=(1,), **det)
                             C = A
                             name = "stack_mat"
                         cls = f"{name}/{fmt}/{'B-empty' if bmask == 0 else 'B'}/{'A-empty' if mask == 0 else 'A'}"
@@ -560,7 +573,12 @@ def run_sparse_blocks(case, out):
                 order = "reversed" if f.endswith("-rev") else "sorted"
                 real.append(G.build(r, c, m, 0, f.replace("-rev", ""), order, base=10 * (i + 1)))
             det = dict(blocks=[d.tolist() for d in dens], formats=list(fmts), target=target)
-            ok, M = _call(rec, target + "_from_sparse_blocks", fn, real, **det)
+            originals = list(real)
+            dig = [G.digest(b) for b in originals]
+            ok, M = _call(rec, target + "_from_sparse_blocks", fn, real, pure=(), **det)
+            if ok and [G.digest(b) for b in originals] != dig:
+                rec.bad(target + "_from_sparse_blocks", f"{target}_matrix_from_sparse_blocks modified a block (storage digest changed)", **det)
+                ok = False
             cls = f"sparse_blocks/{target}/n{len(blocks)}/{'mixed' if len(set(fmts)) > 1 else fmts[0]}"
             if ok:
                 bad = None
@@ -853,4 +871,6 @@ KF = {
 
 
 def known_finding(case, viol):
-    return KF.get(viol.get("tag"))
+    # Both defects found by this check (tags merge_matrices-unsorted, rldecode-zero-count) are
+    # fixed in /repo (07edd6681); nothing is masked any more.
+    return None
